@@ -127,6 +127,21 @@ int32_t jls_rd_open(struct jls_rd_s ** instance, const char * path) {
             }
         }
 
+        // cut the user data list behind its last readable chunk
+        struct jls_core_chunk_s user_data = core->user_data_head;
+        while (user_data.offset && user_data.hdr.item_next) {
+            if (jls_raw_chunk_seek(core->raw, user_data.hdr.item_next) || jls_core_rd_chunk(core)
+                    || (core->chunk_cur.hdr.tag != JLS_TAG_USER_DATA)) {
+                user_data.hdr.item_next = 0;
+                GOE(jls_core_update_chunk_header(core, &user_data));
+                if (user_data.offset == core->user_data_head.offset) {
+                    core->user_data_head.hdr.item_next = 0;
+                }
+                break;
+            }
+            user_data = core->chunk_cur;
+        }
+
         GOE(jls_core_scan_fsr_sample_id(core));
 
         for (uint16_t signal_idx = 0; signal_idx < JLS_SIGNAL_COUNT; ++signal_idx) {
